@@ -2,13 +2,14 @@
    instance names the function to run. *)
 From Coq Require Import List ZArith.
 Import ListNotations.
-From V Require Import Valid.Run Model.RunC13 Model.Edits2.
+From V Require Import Valid.Run Model.RunC13 Model.Edits2 Model.IterHier.
 Local Open Scope Z_scope.
 
 Definition run_any (rows : list (list Z)) : list Z :=
   match rows with
   | [113] :: rest => run_c13 rest
   | [114] :: rest => run_c14 rest
+  | [116] :: rest => run_c16 rest
   | [100] :: rest => run_instance rest
   | _ => run_instance rows
   end.
